@@ -3,7 +3,7 @@
 # current checks: patch applies, suite green, demonstration red, and the quick tier of the
 # check(s) named in meta.json "caught_by" reports a violation. One line per change.
 cd "$(dirname "$0")/.."
-dirs=("$@"); [ ${#dirs[@]} -eq 0 ] && dirs=(seeded/C??-[AB])
+dirs=("$@"); [ ${#dirs[@]} -eq 0 ] && dirs=(seeded/C??-[A-D])
 for d in "${dirs[@]}"; do
   ids=$(python3 -c "import json,re,sys;m=json.load(open('$d/meta.json'));print(' '.join(dict.fromkeys(re.findall(r'C\d\d', m.get('caught_by','')))))")
   out=$(tools/try_mutant.sh "$d" $ids 2>&1)
